@@ -181,6 +181,19 @@ func init() {
 		add(id, blockAssumptions, tier("thorough", pay)...)
 	}
 
+	// two consecutive blocks through the real BeginBlock: attendance is per block
+	twoBlocks := HSpec{Pkg: minterPkg, Func: "VerifHarness_Block_TwoBlocksStatuses", Tier: "quick",
+		Bounds: "BeginBlock+EndBlock twice; in the second block each of 2 validators is reported signed, reported absent or not mentioned; stakes, reward, fees symbolic; emission far from the cap"}
+	add("C19", blockAssumptions, twoBlocks)
+	add("C07", blockAssumptions, twoBlocks)
+	// buy side of the order book
+	buyOrders := HSpec{Pkg: swapPkg, Func: "VerifHarness_C13_BuyWithOrders", Tier: "quick", Configs: []map[string]int64{cfg("orders", 0, "atPoolPrice", 1)},
+		Bounds: "concrete pool 10000/10000 and one resting order at the pool price; amount to buy symbolic in (0, 20000]"}
+	buyOrdersT := HSpec{Pkg: swapPkg, Func: "VerifHarness_C13_BuyWithOrders", Tier: "thorough", Configs: []map[string]int64{cfg("orders", 0), cfg("orders", 1), cfg("orders", 2)},
+		Bounds: "as above with 0..2 resting orders away from the pool price"}
+	add("C13", commonAssumptions, buyOrders, buyOrdersT)
+	add("C14", commonAssumptions, buyOrdersT)
+	add("C07", commonAssumptions, buyOrders)
 	add("C07", blockAssumptions, HSpec{Pkg: minterPkg, Func: "VerifHarness_Block_MoveTargetGone", Tier: "quick",
 		Bounds: "one BeginBlock at the maturity height of a stake move whose target candidate was deleted one block earlier; amounts symbolic (open finding F5b)"})
 
@@ -210,18 +223,18 @@ func init() {
 	// ---------------------------------------------------------- C09 state modules / C08 map order
 	{
 		var cs, cs8 []map[string]int64
-		for step := 0; step <= 4; step++ {
+		for step := 0; step <= 6; step++ {
 			for restart := 0; restart <= 1; restart++ {
 				cs = append(cs, cfg("step", step, "restart", restart))
 			}
 			cs8 = append(cs8, cfg("step", step, "concrete", 1))
 		}
 		add("C09", append([]string{
-			"state modules: every module is populated through its own mutators (3 accounts, 2 coins, a multisig, 2 candidates x 3 stakes, 2 validators, 3 frozen items, 2 waitlist entries, halts, update votes, 2 used checks, 2 pools, 2 orders), committed, modified by one of 5 second-block steps (optionally in a restarted process) and committed again; after each commit a fresh State over the same database must answer every getter like the continuing one",
+			"state modules: every module is populated through its own mutators (3 accounts, 2 coins, a multisig, 2 candidates x 3 stakes, 2 validators, 3 frozen items, 2 waitlist entries, halts, update votes, 2 used checks, 2 pools, 2 orders), committed, modified by one of 6 second-block steps (optionally in a restarted process) and committed again; after each commit a fresh State over the same database must answer every getter like the continuing one",
 			"balances, frozen funds, waitlist, coin volume/reserve, slashed are symbolic; stakes, pool reserves and order volumes are concrete (they drive control flow / float-encoded keys)",
 			"IAVL pruning (DeleteVersion) and the paged on-disk order index under long interleavings are outside",
 		}, commonAssumptions...), HSpec{Pkg: "coreV2/state", Func: "VerifHarness_C09_StateRestart", Tier: "quick", Configs: cs,
-			Bounds: "two committed blocks over the universe above; 5 kinds of second-block activity x restart or not"})
+			Bounds: "two committed blocks over the universe above; 6 kinds of second-block activity x restart or not"})
 		add("C08", append([]string{
 			"reduction: block execution starts no goroutines and reads no clock into state; the remaining source of cross-instance divergence examined here is Go's randomised map iteration",
 			"every map range met while committing is explored in every order (all permutations up to 3 entries, rotations and reversal beyond), one deviating site per path (others in default order); the ordered sequence of database writes (store, key, value) must be identical across orders",
@@ -329,7 +342,7 @@ func init() {
 			"custom-coin stakes are outside the registered bound",
 		}, txAssumptions...)
 		sc := func(kv ...interface{}) map[string]int64 { return cfg(append([]interface{}{"concretePrices", 1}, kv...)...) }
-		stq := HSpec{Pkg: txPkg, Func: "VerifHarness_Stake_Deliver", Tier: "quick", Configs: []map[string]int64{sc("kind", 0), sc("kind", 1), sc("kind", 2), sc("kind", 3), sc("kind", 4), sc("kind", 0, "waitlisted", 1), sc("kind", 5), sc("kind", 5, "foreign", 1), sc("kind", 6)},
+		stq := HSpec{Pkg: txPkg, Func: "VerifHarness_Stake_Deliver", Tier: "quick", Configs: []map[string]int64{sc("kind", 0), sc("kind", 1), sc("kind", 2), sc("kind", 3), sc("kind", 2, "maturedBatch", 1), sc("kind", 4), sc("kind", 0, "waitlisted", 1), sc("kind", 5), sc("kind", 5, "foreign", 1), sc("kind", 6)},
 			Bounds: "one CheckTx+DeliverTx of Unbond / MoveStake / Lock / Delegate / Unbond-under-LockStake / SetCandidateOn / SetCandidateOff by A; value, stake, balances, jail height symbolic"}
 		stt := HSpec{Pkg: txPkg, Func: "VerifHarness_Stake_Deliver", Tier: "thorough", Configs: []map[string]int64{sc("kind", 1, "waitlisted", 1), cfg("kind", 0), cfg("kind", 1), cfg("kind", 3)},
 			Bounds: "waitlisted move; symbolic price table"}
@@ -367,6 +380,30 @@ func init() {
 		}
 	}
 
+	// ---------------------------------------------------------- remaining transaction types
+	{
+		mc := func(kv ...interface{}) map[string]int64 { return cfg(append([]interface{}{"concretePrices", 1}, kv...)...) }
+		ma := append([]string{
+			"Multisend with two items; BurnToken of the token / the bancor coin; SetHaltBlock and VoteUpdate votes of candidate P (owned by B) for one of three concrete heights around the current one, fresh or already cast; DeclareCandidacy of a free / an existing key; EditCandidate; CreateMultisig / EditMultisig with two owners (distinct or duplicated), weights and threshold symbolic; each by A or by B",
+		}, txAssumptions...)
+		misc := HSpec{Pkg: txPkg, Func: "VerifHarness_Misc_Deliver", Tier: "quick", Configs: []map[string]int64{
+			mc("kind", 0, "coin", 0), mc("kind", 0, "coin", 1), mc("kind", 1, "coin", 2), mc("kind", 1, "coin", 1), mc("kind", 1, "coin", 2, "signerB", 1),
+			mc("kind", 2, "signerB", 1), mc("kind", 2, "signerB", 1, "preVoted", 1), mc("kind", 2), mc("kind", 3, "signerB", 1), mc("kind", 3, "signerB", 1, "preVoted", 1), mc("kind", 3),
+			mc("kind", 4), mc("kind", 4, "existingKey", 1), mc("kind", 5), mc("kind", 5, "signerB", 1), mc("kind", 6), mc("kind", 6, "dupOwners", 1), mc("kind", 7), mc("kind", 8), mc("kind", 8, "ownedByA", 1)},
+			Bounds: "one CheckTx+DeliverTx per kind; amounts, weights, threshold, commission symbolic"}
+		for _, id := range []string{"C05", "C20", "C22", "C17", "C27"} {
+			add(id, ma, misc)
+		}
+		// the cross-cutting properties run a subset in the quick tier, the rest in thorough
+		core := misc
+		core.Configs = []map[string]int64{mc("kind", 0, "coin", 1), mc("kind", 1, "coin", 2), mc("kind", 2, "signerB", 1), mc("kind", 4), mc("kind", 6)}
+		rest := misc
+		rest.Tier = "thorough"
+		for _, id := range []string{"C01", "C02", "C03", "C06", "C07"} {
+			add(id, ma, core, rest)
+		}
+	}
+
 	// ---------------------------------------------------------- AddLiquidity / RemoveLiquidity
 	{
 		lp := func(kv ...interface{}) map[string]int64 {
@@ -390,7 +427,9 @@ func init() {
 			rc("kind", 0, "ticker", 0), rc("kind", 0, "ticker", 1), rc("kind", 1, "ticker", 0), rc("kind", 1, "ticker", 2),
 			rc("kind", 2, "ticker", 1), rc("kind", 2, "ticker", 1, "signerB", 1), rc("kind", 2, "ticker", 0),
 			rc("kind", 3, "ticker", 2), rc("kind", 3, "ticker", 2, "signerB", 1),
-			rc("kind", 4, "ticker", 1), rc("kind", 4, "ticker", 2, "signerB", 1), rc("kind", 4, "ticker", 0)},
+			rc("kind", 4, "ticker", 1), rc("kind", 4, "ticker", 2, "signerB", 1), rc("kind", 4, "ticker", 0),
+			// the ownerless pool-token ticker can be recreated / re-owned by nobody
+			rc("kind", 3, "ticker", 3, "pool10", 1, "lp10", 1, "concretePool", 1), rc("kind", 2, "ticker", 3, "pool10", 1, "lp10", 1, "concretePool", 1), rc("kind", 4, "ticker", 3, "pool10", 1, "lp10", 1, "concretePool", 1)},
 			Bounds: "one CheckTx+DeliverTx of CreateCoin / CreateToken / RecreateCoin / RecreateToken / EditCoinOwner for a free ticker or the existing tickers, by the ticker owner or another account; amounts, reserve, max supply, crr symbolic; one recreation (version 1), repeated recreation outside the bound"}
 		for _, id := range []string{"C22", "C01", "C02", "C03", "C05", "C06", "C07"} {
 			add(id, txAssumptions, reg)
